@@ -16,7 +16,7 @@ def german_classes(method: str, rng: random.Random, per_class: int = 2):
     short accounts, raising paths."""
     out, seen = [], {}
     tries = 0
-    while tries < 12000 and sum(len(v) for v in seen.values()) < per_class * 24:
+    while tries < 20000 and sum(len(v) for v in seen.values()) < per_class * 36:
         tries += 1
         k = rng.choice([3, 5, 6, 8, 9, 10, 10])
         a = "".join(rng.choice(R.DIGITS) for _ in range(k)).zfill(10)
@@ -25,8 +25,8 @@ def german_classes(method: str, rng: random.Random, per_class: int = 2):
         cls = (v, "r0" if r == 0 else "r1" if r == 1 else "rx", "len10" if a[0] != "0" else "short",
                # drivers of method-specific branches (88: d3=9, 61: d9=8, 26/13/76: leading 00, 24/68: first digits)
                a[2] == "9", a[8] == "8", a[:2] == "00", a[0] in "3456" or a[0] == "9",
-               # the exception rules of 16 / 23 look at the last two digits
-               a[8] == a[9] and r == 1)
+               # the exception rules of 16 / 23 look at the last two digits (with any remainder)
+               a[8] == a[9])
         if len(seen.setdefault(cls, [])) < per_class:
             seen[cls].append(a)
     for cls, accs in sorted(seen.items()):
@@ -205,7 +205,7 @@ def build(rng: random.Random, size: str = "quick"):
             b = gen.random_bban(spec, rng)
             if i < 2:
                 b = N.force_valid(cc, b) or b
-            add({"fn": "bban", "country": cc, "value": b}, f"natb:{cc}")
+            add({"fn": "bban_check", "country": cc, "value": b}, f"natb:{cc}")
     # the same digit string as body of every national-algorithm country (equal component concatenations)
     for k in range(2 if size == "quick" else 8):
         D = "".join(rng.choice(R.DIGITS) for _ in range(40))
